@@ -20,7 +20,12 @@ Attacks == {"Cr", "Cu", "beta", "delta", "epsilon", "zeta", "alpha-response", "s
             \* degenerate group elements: Cr or Cu replaced by 0 mod n in the proof as it is, and a proof built from
             \* scratch around Cr = Cu = 0 mod n (every commitment the verifier reconstructs is then 0 whatever the
             \* responses are, so the prover hashes zeros and needs no witness) against the issuer's NEWEST accumulator
-            "Cr-zero", "Cu-zero", "zero-forgery"}
+            "Cr-zero", "Cu-zero", "zero-forgery",
+            \* the witness of ANOTHER value that is still in the accumulator (another credential of the holder, a colluder's),
+            \* proven for a hidden attribute of this credential that holds that value: the secret key (which the holder
+            \* chooses freely) or an ordinary attribute whose value the holder could influence; the response of the real
+            \* revocation attribute is padded so that it does not look like one
+            "foreign-witness-sk", "foreign-witness-attr"}
 
 VARIABLES acc,      \* index of the issuer's current accumulator
           accT,     \* time at which the issuer's current signed accumulator was signed (a counter)
